@@ -259,7 +259,7 @@ func (ps *PipeSim) crash(c *simrt.Chooser, label string) {
 	ps.r.W.Fault("crash")
 	ps.r.Logf("CRASH incarnation %d (%s)", in.id, label)
 	ps.r.Net.DialFault = func(string) error { return errors.New("process is dead") }
-	for _, ss := range ps.srv.Sessions {
+	for _, ss := range ps.srv.Live() { // canonical order: the drawn prefix lengths must not depend on dial order
 		if ss.Dead || ss.Conn.Tag != in.id {
 			continue
 		}
@@ -272,7 +272,7 @@ func (ps *PipeSim) crash(c *simrt.Chooser, label string) {
 			simrt.Probe("crash_inside_target_multi")
 		}
 		done := ps.srv.KillSession(ss, k)
-		ps.r.Logf("  c%d: %d pending, %d still executed", ss.Conn.ID, n, done)
+		ps.r.Logf("  %s: %d pending, %d still executed", ss.LabelString(), n, done)
 	}
 	in.cancel()
 	in.mu.Lock()
